@@ -4,8 +4,10 @@ C08 — model of the transactional cache layer `sdk/physical/cache.go` at operat
 inmem model: the parent `transactionalCache` keeps an LRU of `key ↦ entry` (negative results included);
 `BeginTx` wraps the inner transaction with a FRESH private cache (`cloneWithStorage`); `Get` answers from the
 cache on a hit and never reaches the layer below; `Put` writes through and caches, `Delete` writes through and
-evicts, both record the key in `modified`; listings pass through; `Commit` commits the inner transaction and
-on success evicts every modified key from the PARENT cache; `Rollback` passes through.
+evicts, both record the key in `modified`; listings pass through; `Commit` marks the cache transaction finished,
+commits the inner transaction and on success evicts every modified key from the PARENT cache; `Rollback` marks it
+finished and passes through; a finished cache transaction hands `Get` to the wrapped transaction instead of its
+private cache (the repair of F22), so that it is refused like every other operation.
 
 The LRU (golang-lru 2Q, 128 Ki entries; 2 Ki per transaction) is modelled as an unbounded map: no eviction
 happens on the small key spaces the harness uses. `logical.LogicalStorage` and `logical.StorageView` above the
@@ -23,6 +25,7 @@ def lruRemove (c : Lru) (k : Key) : Lru := c.filter (fun x => x.1 != k)
 structure CTxn where
   lru : Lru
   modified : List Key
+  finished : Bool := false     -- `Commit` or `Rollback` has been called: reads bypass the private cache
   deriving DecidableEq, Repr
 
 structure CSys where
@@ -48,6 +51,12 @@ def CSys.step (s : CSys) : Event → Option (CSys × Res)
     | some c =>
       match o with
       | .get k =>
+        if c.finished then
+          -- finished: the private cache is no longer consulted, the wrapped transaction answers
+          match s.inner.step (.op id o) with
+          | none => none
+          | some (i', r) => some ({ s with inner := i' }, r)
+        else
         match c.lru.lookup k with
         | some e => some (s, .val e)             -- cache hit: the wrapped transaction is not consulted
         | none =>
@@ -59,13 +68,13 @@ def CSys.step (s : CSys) : Event → Option (CSys × Res)
         match s.inner.step (.op id o) with
         | none => none
         | some (i', .ok) =>
-          some ({ s with inner := i', ctxns := setC s.ctxns id { lru := lruSet c.lru k (some v), modified := k :: c.modified } }, .ok)
+          some ({ s with inner := i', ctxns := setC s.ctxns id { c with lru := lruSet c.lru k (some v), modified := k :: c.modified } }, .ok)
         | some (i', r) => some ({ s with inner := i' }, r)
       | .del k =>
         match s.inner.step (.op id o) with
         | none => none
         | some (i', .ok) =>
-          some ({ s with inner := i', ctxns := setC s.ctxns id { lru := lruRemove c.lru k, modified := k :: c.modified } }, .ok)
+          some ({ s with inner := i', ctxns := setC s.ctxns id { c with lru := lruRemove c.lru k, modified := k :: c.modified } }, .ok)
         | some (i', r) => some ({ s with inner := i' }, r)
       | .list .. =>
         match s.inner.step (.op id o) with
@@ -77,12 +86,16 @@ def CSys.step (s : CSys) : Event → Option (CSys × Res)
     | some c =>
       match s.inner.step (.commit id) with
       | none => none
-      | some (i', .ok) => some ({ s with inner := i', lru := c.modified.foldl lruRemove s.lru }, .ok)
-      | some (i', r) => some ({ s with inner := i' }, r)
+      | some (i', .ok) =>
+        some ({ inner := i', lru := c.modified.foldl lruRemove s.lru, ctxns := setC s.ctxns id { c with finished := true } }, .ok)
+      | some (i', r) => some ({ s with inner := i', ctxns := setC s.ctxns id { c with finished := true } }, r)
   | .rollback id =>
-    match s.inner.step (.rollback id) with
+    match s.ctxns.lookup id with
     | none => none
-    | some (i', r) => some ({ s with inner := i' }, r)
+    | some c =>
+      match s.inner.step (.rollback id) with
+      | none => none
+      | some (i', r) => some ({ s with inner := i', ctxns := setC s.ctxns id { c with finished := true } }, r)
   | .plain o =>
     match o with
     | .get k =>
@@ -116,6 +129,10 @@ def CSys.run : CSys → List Event → CSys
 
 /-- every entry of the parent cache is what the backend below holds for that key -/
 def ParentCoherent (s : CSys) : Prop := ∀ k e, s.lru.lookup k = some e → e = sget s.inner.parent k
+
+/-- whenever the wrapped transaction is finished the cache transaction knows it -/
+def FlagInv (s : CSys) : Prop :=
+  ∀ id c t, s.ctxns.lookup id = some c → s.inner.txns.lookup id = some t → t.finished = true → c.finished = true
 
 /-- every entry of an OPEN transaction's private cache is what the wrapped transaction holds for that key -/
 def TxnCoherent (s : CSys) : Prop :=
@@ -163,8 +180,12 @@ def Win.tick (w : Win) : Win :=
   match w.phase with
   | .before =>
     match w.sys.ctxns.lookup w.id, w.sys.inner.step (.commit w.id) with
-    | some c, some (i', .ok) => { w with sys := { w.sys with inner := i' }, phase := .invalidating c.modified, res := .ok }
-    | some _, some (i', r) => { w with sys := { w.sys with inner := i' }, phase := .done, res := r }
+    | some c, some (i', .ok) =>
+      { w with sys := { w.sys with inner := i', ctxns := setC w.sys.ctxns w.id { c with finished := true } },
+               phase := .invalidating c.modified, res := .ok }
+    | some c, some (i', r) =>
+      { w with sys := { w.sys with inner := i', ctxns := setC w.sys.ctxns w.id { c with finished := true } },
+               phase := .done, res := r }
     | _, _ => w
   | .invalidating [] => { w with phase := .done }
   | .invalidating (k :: rest) => { w with sys := { w.sys with lru := lruRemove w.sys.lru k }, phase := .invalidating rest }
@@ -218,6 +239,6 @@ def commitReversed (s : CSys) (id : Nat) (readers : List Key) : Option CSys :=
     let s2 := readers.foldl (fun st k => match st.step (.plain (.get k)) with | some (s', _) => s' | none => st) s1
     match s2.inner.step (.commit id) with
     | none => none
-    | some (i', _) => some { s2 with inner := i' }
+    | some (i', _) => some { s2 with inner := i', ctxns := setC s2.ctxns id { c with finished := true } }
 
 end Obao.CacheTxn
